@@ -63,6 +63,16 @@ TRUSTED = [
     "C05_commit_sort_canonical (the order is total on outputs) and by the injectivity clause of "
     "C05_htlc_sig_index (output indexes of jobs are pairwise distinct); signature validity itself is "
     "decided by the real code (ReceiveNewCommitment) and by the btcd engine on every second-level tx",
+    "breach-arbiter flow (Channel/BrarFlow.v, C04 only): a breached output is (commitment output index, kind, "
+    "amount), the chain is a ghost status per output (unspent / advanced to the second level (amount) / spent at "
+    "the first level / second level spent); outpoints, scripts, tap tweaks, signatures, input.IsHtlcSpendRevoke, "
+    "the RetributionStore encoding, fee estimation and the goroutine plumbing of waitForSpendEvent are decided by "
+    "the REAL code in harness/contractcourt/verif_justiceflow_test.go and judged by the btcd engine against the "
+    "outputs of the simulated chain; witness layouts are compared as SHAPES (stack-element lengths) of the real "
+    "signed transactions; the C04_rebuild_* theorems assume batches with distinct slice indexes (one goroutine per "
+    "index in waitForSpendEvent) that report only spends which are on chain; the simulated chain of the harness "
+    "(confirmation = a map from outpoints to outputs / spenders, lntest/mock.SpendNotifier in the live driver) "
+    "stands for the chain notifier",
 ]
 
 
